@@ -74,14 +74,11 @@ theorem attribute1x_enc (a : TAttr) (h : okAttr1x a = true) : attribute1x (encAt
   cases hsp : specOf name with
   | none => simp only [hsp] at hs; exact absurd hs Bool.false_ne_true
   | some sp =>
-    cases hsn : specOfName name with
-    | error e => simp only [hsp, hsn] at hs; exact absurd hs Bool.false_ne_true
-    | ok sp' =>
-      simp only [hsp, hsn, Bool.and_eq_true, beq_iff_eq] at hs
-      obtain ⟨rfl, hv⟩ := hs
-      cases index <;>
-        simp only [attribute1x, encAttr1x, attributeBody, normAttr1x, rd_eval, kmip_tags, Nat.reduceBEq, ↓reduceIte, hn,
-          hsp, hsn, readValue_encValue _ _ _ _ hv]
+    simp only [hsp] at hs
+    have hsn := specOfName_of_specOf name sp hn hsp
+    cases index <;>
+      simp only [attribute1x, encAttr1x, attributeBody, normAttr1x, rd_eval, kmip_tags, Nat.reduceBEq, ↓reduceIte, hn,
+        hsp, hsn, readValue_encValue _ _ _ _ hs]
 
 theorem attrByTag_enc (a : TAttr) (h : okAttr20 a = true) : attrByTag (encAttr20 a) = .ok (normAttr20 a) := by
   obtain ⟨name, index, value⟩ := a
@@ -93,7 +90,8 @@ theorem attrByTag_enc (a : TAttr) (h : okAttr20 a = true) : attrByTag (encAttr20
     | none => simp only [ht, hsp] at h; exact absurd h Bool.false_ne_true
     | some sp =>
       simp only [ht, hsp, Bool.and_eq_true, beq_iff_eq] at h
-      obtain ⟨⟨⟨⟨h1, h2⟩, h3⟩, h4⟩, hv⟩ := h
+      obtain ⟨⟨h2, h3⟩, hv⟩ := h
+      obtain ⟨h1, h4⟩ := nameOfTag_tagOfName name t ht
       simp only [attrByTag, encAttr20, normAttr20, ht, hsp, rd_eval, h1, h2, h3, h4, Bool.not_true, ↓reduceIte,
         readValue_encValue _ _ _ _ hv]
 
@@ -356,16 +354,13 @@ theorem getAttributes_rt1 (v : Nat) (hv : v < 20) (u : Option String) (ns : List
     simp only [okOpt] at hu
     simp only [getAttributesBody, rd_eval, hv, ↓reduceIte, hu, hm, List.map_id]
 
-theorem attributeReference_enc (n : String) (t : Nat) (ht : tagOfName n = some t) (h1 : allTags.contains t = true)
-    (h2 : (nameOfTag t == some n) = true) :
+theorem attributeReference_enc (n : String) (t : Nat) (ht : tagOfName n = some t) :
     attributeReferenceName (enm T.attributeReference ((tagOfName n).getD 0)) = .ok n := by
-  simp only [beq_iff_eq] at h2
+  obtain ⟨h1, h2⟩ := nameOfTag_tagOfName n t ht
   simp only [ht, Option.getD_some, enm, attributeReferenceName, asEnum, h1, ↓reduceIte, Except.bind, h2]
 
 theorem getAttributes_rt2 (v : Nat) (hv : ¬ v < 20) (u : Option String) (ns : List String) (hu : okOpt okText u = true)
-    (hn : ns.eraseDups.all (fun n => match tagOfName n with
-        | some t => allTags.contains t && nameOfTag t == some n
-        | none => false) = true) :
+    (hn : ns.eraseDups.all (fun n => (tagOfName n).isSome) = true) :
     getAttributesBody v (uidL u ++ ns.eraseDups.map (fun n => enm T.attributeReference ((tagOfName n).getD 0))) =
       .ok (.getAttributes u ns.eraseDups, []) := by
   have hall := List.all_eq_true.mp hn
@@ -374,10 +369,8 @@ theorem getAttributes_rt2 (v : Nat) (hv : ¬ v < 20) (u : Option String) (ns : L
     (fun a ha => by
       have := hall a ha
       cases ht : tagOfName a with
-      | none => simp only [ht] at this; exact absurd this Bool.false_ne_true
-      | some t =>
-        simp only [ht, Bool.and_eq_true] at this
-        exact ⟨rfl, by rw [← ht]; exact attributeReference_enc a t ht this.1 this.2⟩)
+      | none => simp only [ht, Option.isSome_none] at this; exact absurd this Bool.false_ne_true
+      | some t => exact ⟨rfl, by rw [← ht]; exact attributeReference_enc a t ht⟩)
   have hmiss := opt_miss T.uniqueIdentifier (asText "unique identifier")
     (ns.eraseDups.map (fun n => enm T.attributeReference ((tagOfName n).getD 0)))
     (by have := headNe_map T.uniqueIdentifier (fun n => enm T.attributeReference ((tagOfName n).getD 0)) ns.eraseDups []
